@@ -7,7 +7,7 @@ FLAVOURS = ("asyncio", "trio", "threading")
 
 EXC_KINDS = ["LookupError", "ValueError", "KeyError", "CustomWithArgs", "StopAsyncIteration", "TimeoutError", "OSError",
              "AssertionError", "RuntimeError", "ExceptionGroup", "InvalidStateError", "FuturesCancelledError", "Unprintable", "EmptyErrors",
-             "TrioClosedResourceError", "TrioBrokenResourceError", "TrioEndOfChannel"]
+             "TrioClosedResourceError", "TrioBrokenResourceError", "TrioEndOfChannel", "EndOfAsyncStream"]
 THREAD_ONLY_EXC = ["StopIteration", "AsyncioCancelledErrorAsException"]
 BASE_KINDS = ["SystemExit", "SystemExitZero", "SystemExitNone", "GeneratorExit", "CustomBase"]
 RETURN_KINDS = ["zero", "zerofloat", "false", "emptystr", "emptylist", "emptytuple", "emptybytes", "emptydict", "str", "one",
